@@ -5,7 +5,7 @@
 From Coq Require Import List NArith ZArith Bool.
 From Coq.Strings Require Import Byte.
 From Connect Require Import Bytes Generated.
-From Connect Require Export GoIO Envelope ExecBase.
+From Connect Require Export GoIO Envelope Cut ClientRecv ExecBase.
 Import ListNotations.
 Local Open Scope N_scope.
 
@@ -93,7 +93,55 @@ Inductive envcase :=
    client, response body of a real handler) must be decoded by the model's
    reader to exactly the messages given to the sending API, followed by a clean
    end (term = None) or by one special envelope with the given flags *)
-| XDecode (a : option algo) (body : bytes) (msgs : list bytes) (term : option N).
+| XDecode (a : option algo) (body : bytes) (msgs : list bytes) (term : option N)
+(* a streaming client: response body as chunks, HTTP trailers summarised by [tr]
+   (gRPC), meaning of the in-band terminator payload summarised by [sp]
+   (Connect end-of-stream JSON / gRPC-Web trailer block); observed = messages
+   then OEOF (clean) or OErr code *)
+| CRecv (p : proto) (max : N) (a : option algo) (cs : list bytes) (f : fin)
+        (tr sp : verdict) (observed : list obs)
+(* a unary call over the same response: the message, or an error code *)
+| CUnary (p : proto) (max : N) (a : option algo) (cs : list bytes) (f : fin)
+         (tr sp : verdict) (observed : obs).
+
+Definition hooks (p : proto) (tr sp : verdict) :
+  (N -> bytes -> outcome) * outcome * (N -> outcome) :=
+  match p with
+  | PConnect => (connect_on_special (fun _ => sp), connect_on_eof, connect_on_error)
+  | PGrpcWeb => (grpcweb_on_special (fun _ => sp), grpcweb_on_eof, grpcweb_on_error)
+  | PGrpc => (grpc_on_special tr, grpc_on_eof tr, grpc_on_error tr)
+  end.
+
+Definition outcome_obs (o : option outcome) : list obs :=
+  match o with
+  | Some Clean => [OEOF]
+  | Some (Failed c) => [OErr c]
+  | None => []
+  end.
+
+(* receiveUnaryResponse (connect.go:256-274) on the reader's first two results *)
+Definition unary_result (on_special : N -> bytes -> outcome) (on_eof : outcome) (on_error : N -> outcome)
+           (rs : list (uresult bytes)) : obs :=
+  let single (r : uresult bytes) : bytes + outcome :=
+      match r with
+      | UMsg m => inl m
+      | UErr REOF => inr on_eof
+      | UErr (RErr c) => inr (on_error c)
+      | USpecial fl d => inr (on_special fl d)
+      end in
+  match rs with
+  | r1 :: r2 :: _ =>
+    match single r1 with
+    | inr Clean => OErr code_unknown            (* stream ended before any message *)
+    | inr (Failed c) => OErr c
+    | inl m =>
+      match single r2 with
+      | inr Clean => OMsg m
+      | _ => OErr code_unknown                  (* a second message, or a failure after the first *)
+      end
+    end
+  | _ => OErr code_unknown
+  end.
 
 Definition env_ok (c : envcase) : bool :=
   match c with
@@ -122,4 +170,22 @@ Definition env_ok (c : envcase) : bool :=
         | _, [] => false
         end in
     go rs msgs
+  | CRecv p max a cs f tr sp observed =>
+    let pool := match a with Some _ => true | None => false end in
+    let rs := recv_n_c bytes toy_unmarshal (algo_decompress a) [] (length observed) max pool (mkT cs f) in
+    let '(on_sp, on_eof, on_err) := hooks p tr sp in
+    let '(ms, o) := client_outcome bytes on_sp on_eof on_err rs in
+    list_eqb obs_eqb (map OMsg ms ++ outcome_obs o) observed
+  | CUnary p max a cs f tr sp observed =>
+    let pool := match a with Some _ => true | None => false end in
+    let rs := recv_n_c bytes toy_unmarshal (algo_decompress a) [] 2 max pool (mkT cs f) in
+    let '(on_sp, on_eof, on_err) := hooks p tr sp in
+    (* client.go:71-91: a successful receive is followed by CloseResponse, which
+       discards the rest of the body; a transport failure there fails the call *)
+    let res := match unary_result on_sp on_eof on_err rs, f with
+               | OMsg _, Fail (ECoded c) => OErr c
+               | OMsg _, Fail _ => OErr code_unknown
+               | o, _ => o
+               end in
+    obs_eqb res observed
   end.
